@@ -23,8 +23,8 @@ LEVEL = 'model_checking'
 RULE = ('full cartesian products (A: every sparsity mask of every shape x every layout prefix; '
         'V: every pool value with both signs in every cell of 1x1/1x2/2x1; '
         'B: id style x id style, metadata kind x metadata kind, style x kind, each x header variants on '
-        'fixed masks; C: every metadata value of a JSON value grammar to depth 2 incl. numpy scalars) '
-        'x {string, direct_io} writer x 5 readers, all executed on the real code; a case is '
+        'fixed masks; E: tables with an empty axis; Z: cancelling rows; C: every metadata value of a JSON value grammar to depth 2 incl. numpy scalars) '
+        'x {string, direct_io} writer x 6 readers, every table read back written a second time, all executed on the real code; a case is '
         'non-trivial when the table has at least one non-zero cell or non-default ids/metadata/header; '
         'distinct by table spec')
 
@@ -138,6 +138,12 @@ def cases(tier, seed):
         for lay in ('csr', 'csc', 'unsorted'):
             out.append({'prod': 'Z', 'shape': list(shape), 'mask': (1 << len(vals)) - 1, 'vals': list(vals),
                         'layout': lay})
+    # E: tables with an empty axis (ids and metadata on the other one)
+    for shape in ([0, 2], [2, 0], [0, 0], [0, 3], [3, 0]):
+        for mk in ('none', 'text', 'taxonomy'):
+            for st in ('plain', 'punct'):
+                out.append({'prod': 'E', 'shape': shape, 'mask': 0, 'rot': rot, 'layout': 'csr', 'obs_md': mk,
+                            'samp_md': mk, 'obs_style': st, 'samp_style': st, 'header': 1})
     for dt in range(1, len(DATES)):
         for shape, mask in FIXED:
             out.append({'prod': 'B-date', 'shape': list(shape), 'mask': mask, 'rot': rot, 'header': 1,
@@ -447,7 +453,8 @@ def run(run):
     run.extra['bound'] = {'shapes': D.shapes(run.tier), 'layouts': D.LAYOUTS, 'readers': READERS,
                           'metadata_values': len(md_values(run.tier))}
     vacuity(run, ['clause:history-roundtrip', 'clause:wellformed', 'clause:same-document', 'clause:independent-decode'] +
-            ['reader:' + r for r in READERS] + ['prod:A', 'prod:B-ids', 'prod:B-md', 'prod:C', 'prod:V'])
+            ['reader:' + r for r in READERS] + ['prod:A', 'prod:B-ids', 'prod:B-md', 'prod:C', 'prod:V', 'prod:E', 'prod:Z',
+                                                   'clause:second-generation'])
     run.assumptions += ['stdlib json/gzip are the independent decoder',
                         'creation_date is passed explicitly (the writer otherwise calls datetime.now())']
 
